@@ -20,18 +20,15 @@ class Elem:
         return "%s(%r)[%s..%s]%s" % (self.kind, self.param, self.lo, self.hi, "" if self.values is None else " in %r" % (self.values,))
 
     def sig(self):
+        sub = getattr(self, "sub", None)
         return (self.kind, self.param if not isinstance(self.param, (bytes, bytearray)) else bytes(self.param), self.lo, self.hi,
-                None if self.values is None else self.values.iv)
+                None if self.values is None else self.values.iv,
+                None if not sub else (tuple(x.sig() for x in sub), getattr(self, "sub_full", False)))
 
 
-def main_chain(st):
-    """the consuming events applied one after the other from position 0 of the line"""
-    cur = Lin.const(0)
-    chain = []
-    side = []
-    for e in st.events:
-        if e[0] not in ("g", "gp"):
-            continue
+def _chain_from(events, cur):
+    chain, side = [], []
+    for e in events:
         tag, kind, param, buf, start, end = e
         if tag == "g" and buf == LINE and start == cur:
             d = end - start
@@ -42,26 +39,91 @@ def main_chain(st):
     return chain, side, cur
 
 
+def main_chain(st):
+    """the consuming events applied one after the other from position 0 of the line; byte parsers
+    applied to a *captured* slice (a sub-parse starting where a main-chain element starts) become the
+    sub-chain of that element"""
+    evs = [e for e in st.events if e[0] in ("g", "gp")]
+    chain, side, cur = _chain_from(evs, Lin.const(0))
+    # attach sub-chains (one level, which may itself carry sub-chains)
+    def attach(chain, side):
+        for el in chain:
+            if not side:
+                break
+            if el.kind in ("take_until", "take") and any(e[0] == "g" and e[3] == LINE and e[4] == el.start for e in side):
+                sub, side2, end = _chain_from(side, el.start)
+                if sub:
+                    el.sub = sub
+                    el.sub_end = end
+                    side = attach(sub, side2)
+        return side
+    side = attach(chain, side)
+    return chain, side, cur
+
+
+def flatten_chain(chain):
+    """main chain with captured-and-parsed elements replaced by their sub-chains (for role assignment)"""
+    out = []
+    for el in chain:
+        sub = getattr(el, "sub", None)
+        # only structural sub-parses (containing delimiters) are expanded; a peek at the first byte of
+        # a field (opt(anychar) on the channel) leaves the field atomic
+        if sub and any(x.kind == "tag" for x in sub):
+            out += flatten_chain(sub)
+            if not getattr(el, "sub_full", False):
+                out.append(Elem("remainder", el.param, el.sub_end, el.end))
+        else:
+            out.append(el)
+    return out
+
+
 def analyse_path(st):
     """-> (elements, side events) with length bounds and numeric side conditions filled in from the
     path condition.  Raises Unanalysable when a fact cannot be expressed per element."""
     chain, side, endpos = main_chain(st)
-    # length variables: one per variable-length element; position atoms -> Lin over them
+    # length variables: one per variable-length element (of the main chain and of every sub-chain);
+    # position atoms -> Lin over them
     lenvar = {}
-    posmap = {}       # position atom -> Lin over ('len', i) atoms
-    acc = Lin.const(0)
-    for i, el in enumerate(chain):
-        if el.const_len is not None:
-            acc = acc + el.const_len
-        else:
-            lv = ("elen", i, 0, MAXLEN)
-            lenvar[i] = lv
-            acc = acc + Lin.atom(lv)
-            sa = el.end.single_atom()
-            if not sa or sa[1] != 1 or sa[2] != 0:
-                raise Unanalysable("element end is not a fresh position: %r" % (el.end,))
-            posmap[sa[0]] = acc
-        # consistency: the element's start must be what we accumulated before it
+    posmap = {}       # position atom -> Lin over ('elen', id) atoms
+    elems_by_id = {}
+    counter = [0]
+
+    def lay_out(ch, acc):
+        """assign length variables along a chain starting at accumulated position `acc`"""
+        for el in ch:
+            start_acc = acc
+            if el.const_len is not None:
+                acc = acc + el.const_len
+            else:
+                counter[0] += 1
+                i = counter[0]
+                lv = ("elen", i, 0, MAXLEN)
+                lenvar[i] = lv
+                elems_by_id[i] = el
+                el.len_id = i
+                acc = acc + Lin.atom(lv)
+                sa = el.end.single_atom()
+                if not sa or sa[1] != 1 or sa[2] != 0:
+                    raise Unanalysable("element end is not a fresh position: %r" % (el.end,))
+                posmap[sa[0]] = acc
+            sub = getattr(el, "sub", None)
+            if sub:
+                lay_out(sub, start_acc)
+        return acc
+    acc = lay_out(chain, Lin.const(0))
+    # sub-chains: was the captured slice required to be consumed completely?
+    def mark_subs(ch):
+        for el in ch:
+            sub = getattr(el, "sub", None)
+            if sub:
+                el.sub_full = st.decide(("le0", el.end - el.sub_end)) is True
+                for e2 in sub:
+                    if e2.kind == "digit1":
+                        e2.lo = 1
+                    if e2.kind == "hex_u32":
+                        raise Unanalysable("hexadecimal run inside a sub-parse of a captured slice")
+                mark_subs(sub)
+    mark_subs(chain)
     tail = ("elen", "tail", 0, MAXLEN)
     total = acc + Lin.atom(tail)
     posmap[("len", LINE)] = total
@@ -76,7 +138,7 @@ def analyse_path(st):
         return out
     bounds = {i: [0, None] for i in lenvar}
     # intrinsic bounds
-    for i, el in enumerate(chain):
+    for i, el in elems_by_id.items():
         if el.kind in ("digit1", "hex_u32"):
             bounds[i][0] = 1
             if el.kind == "hex_u32":
@@ -123,9 +185,8 @@ def analyse_path(st):
         if not okk or mx > 0:
             unresolved.append(f)
     # a second pass for multi-variable facts now that bounds are known is not needed: record them
-    for i, el in enumerate(chain):
-        if i in bounds:
-            el.lo, el.hi = bounds[i]
+    for i, el in elems_by_id.items():
+        el.lo, el.hi = bounds[i]
     # numeric side conditions
     # (value sets come from the verify predicates only: later comparisons of the parsed numbers
     #  by the reassembly logic are not part of the sentence grammar)
@@ -135,7 +196,13 @@ def analyse_path(st):
             vk = e[1]
             if vk[0] == "int" and vk[3][0] == "lin" and len(vk[3][1]) == 1:
                 verified[vk[3][1][0][0]] = e[3]
-    for i, el in enumerate(chain):
+    def all_elems(ch):
+        for el in ch:
+            yield el
+            if getattr(el, "sub", None):
+                for x in all_elems(el.sub):
+                    yield x
+    for i, el in enumerate(all_elems(chain)):
         if el.kind == "digit1":
             term = ("utf8", ("slice", LINE, el.start.key(), (el.end - el.start).key()))
             ok = st.pc.opq.get(("from_str_ok", term, 8))
@@ -148,11 +215,56 @@ def analyse_path(st):
     return chain, side, unresolved
 
 
-def path_fragment(f, chain):
+def filtered_copy(f, src, frag, allowed):
+    """copy fragment `frag` of NFA `src` into f.a with every edge label intersected with `allowed`"""
+    m = {}
+
+    def st_(x):
+        if x not in m:
+            m[x] = f.a.new()
+        return m[x]
+    seen = set()
+    stack = [frag[0]]
+    while stack:
+        x = stack.pop()
+        if x in seen:
+            continue
+        seen.add(x)
+        for y in src.eps.get(x, ()):
+            f.a.add_eps(st_(x), st_(y))
+            stack.append(y)
+        for (bs, y) in src.edges.get(x, ()):
+            lab = bs & allowed
+            if lab:
+                f.a.add(st_(x), lab, st_(y))
+            stack.append(y)
+    return st_(frag[0]), st_(frag[1])
+
+
+def path_fragment(f, chain, in_sub=False):
     """NFA fragment of one success path; take_until elements must be followed by their delimiter"""
     frs = []
     for i, el in enumerate(chain):
         k = el.kind
+        sub = getattr(el, "sub", None)
+        if sub and k in ("take_until", "take"):
+            # a captured slice that is parsed again: (sub-chain . rest) within the capture's own class
+            if k == "take_until":
+                nxt = chain[i + 1] if i + 1 < len(chain) else None
+                if nxt is None or nxt.kind != "tag" or nxt.param[:1] != el.param:
+                    raise Unanalysable("take_until(%r) not followed by its delimiter" % (el.param,))
+                allowed = frozenset(ALL - set(el.param))
+                if el.hi is not None:
+                    raise Unanalysable("bounded capture with a sub-parse")
+            else:
+                raise Unanalysable("fixed-length capture with a sub-parse")
+            tmp = NFA()
+            tf = Frag(tmp)
+            subfr = path_fragment(tf, sub, True)
+            if not el.sub_full:
+                subfr = tf.seq(subfr, tf.star(ALL))
+            frs.append(filtered_copy(f, tmp, subfr, allowed))
+            continue
         if k == "tag":
             frs.append(f.lit(el.param))
         elif k == "take":
